@@ -31,6 +31,8 @@ pub fn judge(h: &History, recs: &[StepRec]) -> Result<(bool, u64), Failure> {
     let mut ambiguous_steps = 0u64;
     let mut started = false;
     let mut steps_iter = 0usize;
+    let bias_possible = h.cfg.join_bias.is_some();
+    let mut expired = false;
     // walk the steps of the history in order together with the records
     for r in recs {
         if r.outcome.is_panic() {
@@ -61,6 +63,7 @@ pub fn judge(h: &History, recs: &[StepRec]) -> Result<(bool, u64), Failure> {
             states = [(0u32, r.snap_after.data_rate)].into_iter().collect();
             owed_ack = false;
             started = true;
+            expired = false;
             continue;
         }
         if !started {
@@ -69,6 +72,13 @@ pub fn judge(h: &History, recs: &[StepRec]) -> Result<(bool, u64), Failure> {
         }
         if r.trace.iter().any(|e| matches!(e, Ev::Fault(_))) {
             return Ok((crossed, ambiguous_steps));
+        }
+        if expired {
+            // the uplink counter space is used up: the statement is about the life of a session
+            return Ok((crossed, ambiguous_steps));
+        }
+        if r.outcome == Outcome::Resp("SessionExpired".into()) {
+            expired = true; // this record's uplink is still judged
         }
         let requested_confirmed = match &r.step {
             Step::Send { confirmed, .. } => *confirmed,
@@ -98,7 +108,10 @@ pub fn judge(h: &History, recs: &[StepRec]) -> Result<(bool, u64), Failure> {
             }
             let Some(dr_obs) = reg.dr_of(t.rf.sf, t.rf.bw_hz, true) else { return Err(Failure::new("uplink-dr-defined", case(), format!("step {}: SF{}/{} Hz is not an uplink data rate of the region", r.index, t.rf.sf, t.rf.bw_hz))) };
             let expect_req = |s: &S| adr && s.0 >= 64 && lower_dr(reg, s.1, &implemented).is_some();
-            let consistent: BTreeSet<S> = states.iter().filter(|s| s.1 == dr_obs && expect_req(s) == v.adr_ack_req()).cloned().collect();
+            // with a join-channel bias configured (fixed plans) the crate documents that data frames
+            // keep using the biased channel and the data rate that channel mandates until a channel
+            // mask arrives: the data rate on the air is then not the session's own and is not judged
+            let consistent: BTreeSet<S> = states.iter().filter(|s| (s.1 == dr_obs || bias_possible) && expect_req(s) == v.adr_ack_req()).cloned().collect();
             if consistent.is_empty() {
                 let drs: BTreeSet<u8> = states.iter().map(|s| s.1).collect();
                 let (rule, fp) = if !drs.contains(&dr_obs) { ("data-rate", format!("data-rate/unexpected-change/{}", h.cfg.region.name())) } else { ("adr-ack-req", if v.adr_ack_req() { "adr-ack-req/spurious".to_string() } else { "adr-ack-req/missing".to_string() }) };
@@ -130,10 +143,34 @@ pub fn judge(h: &History, recs: &[StepRec]) -> Result<(bool, u64), Failure> {
             }
             continue;
         }
+        // data rates the network commanded in a frame accepted in RX1/RX2 (LinkADRReq in FOpts or in a
+        // port-0 payload): a change the device did not make "on its own". Whether the request was
+        // acknowledged is C08's business; here both outcomes are admissible.
+        let mut commanded: Vec<u8> = vec![];
+        for d in accepted.iter().filter(|d| matches!(d.slot, Slot::Rx1 | Slot::Rx2)) {
+            if let Verdict::Accept { fopts, fport, plain, .. } = &d.verdict {
+                let mut streams: Vec<&[u8]> = vec![fopts];
+                if *fport == Some(0) {
+                    streams.push(plain);
+                }
+                for s in streams {
+                    for q in super::c08::parse_reqs(s) {
+                        if let super::c08::Req::LinkAdr { dr, .. } = q {
+                            if dr != 15 && reg.is_uplink_dr(dr) && implemented(dr) {
+                                commanded.push(dr);
+                            }
+                        }
+                    }
+                }
+            }
+        }
         let mut next: BTreeSet<S> = BTreeSet::new();
         for (c, d) in &states {
             if class_a_accept {
                 next.insert((0, *d));
+                for dr in &commanded {
+                    next.insert((0, *dr));
+                }
                 continue;
             }
             let mut bases: Vec<u32> = vec![*c];
@@ -250,4 +287,8 @@ pub fn run(ctx: &mut Ctx) {
             st.fail(f);
         }
     });
+    // ---- cross-generator stage (see props/cross.rs)
+    ctx.rule.push_str(super::cross::CROSS_RULE);
+    let cross_cases = ctx.tier.pick(super::cross::QUICK_PER_GEN, super::cross::THOROUGH_PER_GEN);
+    super::cross::stage(ctx, "C12", cross_cases);
 }
